@@ -24,6 +24,7 @@ _Bool _ZStneIcSaIcEEbRKSt6vectorIT_T0_ES6_(const struct vec_char *a, const struc
   __CPROVER_assert(__CPROVER_r_ok(a, 24) && __CPROVER_r_ok(b, 24), "operator!=(vector<char>): both vectors are live objects");
   return __g2c_nondet_bool();
 }
+#ifndef CONTAINERS_MODEL   /* contracts/containers.h has the size-aware version */
 /* std::string& std::string::append(const std::string&) : mutates *this (modelled as: its bytes change), returns *this */
 struct std_string *_ZNSt7__cxx1112basic_stringIcSt11char_traitsIcESaIcEE6appendERKS4_(struct std_string *this, const struct std_string *s)
 {
@@ -32,6 +33,7 @@ struct std_string *_ZNSt7__cxx1112basic_stringIcSt11char_traitsIcESaIcEE6appendE
   w[0] = __g2c_nondet_ulong(); w[1] = __g2c_nondet_ulong(); w[2] = __g2c_nondet_ulong(); w[3] = __g2c_nondet_ulong();
   return this;
 }
+#endif
 /* std::vector<bloc::Expression*>::vector() : an empty vector */
 struct vec_ExpressionPtr;
 void _ZNSt6vectorIPN4bloc10ExpressionESaIS2_EEC1Ev(struct vec_ExpressionPtr *this) { (void)this; }
